@@ -1466,7 +1466,7 @@ pub mod unit {
             @entry
                 let ghost s0 = self.api.st();
                 let ghost mut mw: Option<AttachedModuleId> = None;
-            @before <<if ( flags . contains>> #1
+            @after <<let (node_id, blueprint_info, partition_num, transient)>> #1
                 proof {
                     mw = choose|m: Option<AttachedModuleId>| target_of(s0, actor_object_type, node_id, m, blueprint_info);
                     assert(target_of(s0, actor_object_type, node_id, mw, blueprint_info));
